@@ -58,6 +58,15 @@ impl AmlGen<'_> {
         }
     }
 
+    /// sometimes a composite type is declared with a name at the top of the definition and referenced by name
+    fn maybe_named(&mut self, ty: Ty, depth: u32, stem: &str) -> Ty {
+        if depth <= 2 && self.named.len() < 4 && self.t.chance(1, 3) {
+            let name = format!("Named_{stem}_{}", self.named.len());
+            self.named.push((name, ty.clone()));
+        }
+        ty
+    }
+
     fn ty(&mut self, depth: u32) -> Ty {
         let k = if depth >= 3 { self.t.draw(5) } else { self.t.draw(11) };
         match k {
@@ -69,7 +78,7 @@ impl AmlGen<'_> {
                     items.push(format!("ITEM_{}_{i}", self.tagno));
                 }
                 self.tagno += 1;
-                Ty::Enum(items)
+                self.maybe_named(Ty::Enum(items), depth, "enum")
             }
             5 => {
                 let base = match self.t.draw(4) {
@@ -95,16 +104,16 @@ impl AmlGen<'_> {
                     let m = if i + 1 == n && self.t.chance(1, 3) { self.ty(depth + 1) } else { self.scalar() };
                     members.push(m);
                 }
-                // sometimes reuse / define a named struct
-                let s = Ty::Struct(members);
-                if depth <= 1 && self.named.len() < 2 && self.t.chance(1, 3) {
-                    let name = format!("Named_struct_{}", self.named.len());
-                    self.named.push((name, s.clone()));
-                }
-                s
+                self.maybe_named(Ty::Struct(members), depth, "struct")
             }
-            8 | 9 => Ty::TStruct(self.members(depth + 1, true)),
-            _ => Ty::TUnion(self.members(depth + 1, false)),
+            8 | 9 => {
+                let m = self.members(depth + 1, true);
+                self.maybe_named(Ty::TStruct(m), depth, "taggedstruct")
+            }
+            _ => {
+                let m = self.members(depth + 1, false);
+                self.maybe_named(Ty::TUnion(m), depth, "taggedunion")
+            }
         }
     }
 
@@ -152,6 +161,9 @@ impl AmlGen<'_> {
             Ty::CharArr(n) => format!("char[{n}]"),
             Ty::Arr(base, n) => format!("{}[{n}]", self.ty_text(base, indent)),
             Ty::Enum(items) => {
+                if let Some((name, _)) = self.named.iter().find(|(_, t)| ty_eq(t, ty)) {
+                    return format!("enum {name}");
+                }
                 let mut s = String::from("enum {");
                 for (i, it) in items.iter().enumerate() {
                     if i > 0 {
@@ -176,6 +188,9 @@ impl AmlGen<'_> {
             }
             Ty::Seq(_) => unreachable!("sequences only occur directly below a tag"),
             Ty::TStruct(members) => {
+                if let Some((name, _)) = self.named.iter().find(|(_, t)| ty_eq(t, ty)) {
+                    return format!("taggedstruct {name}");
+                }
                 let mut s = String::from("taggedstruct {");
                 for m in members {
                     s.push_str(&self.nl(indent + 1));
@@ -186,6 +201,9 @@ impl AmlGen<'_> {
                 s
             }
             Ty::TUnion(members) => {
+                if let Some((name, _)) = self.named.iter().find(|(_, t)| ty_eq(t, ty)) {
+                    return format!("taggedunion {name}");
+                }
                 let mut s = String::from("taggedunion {");
                 for m in members {
                     s.push_str(&self.nl(indent + 1));
@@ -266,10 +284,15 @@ fn gen_a2ml_inner(t: &mut Tape) -> A2mlDef {
     let mut pre = String::new();
     let saved = std::mem::take(&mut g.named);
     for (name, ty) in &named {
-        if let Ty::Struct(members) = ty {
-            let body = g.struct_body_text(members, 2);
-            pre.push_str(&format!("    struct {name} {};\n", &body["struct".len()..]));
-        }
+        // the body is rendered while no name is known, so it is self-contained
+        let (kw, body) = match ty {
+            Ty::Struct(members) => ("struct", g.struct_body_text(members, 2)),
+            Ty::Enum(_) => ("enum", g.ty_text(ty, 2)),
+            Ty::TStruct(_) => ("taggedstruct", g.ty_text(ty, 2)),
+            Ty::TUnion(_) => ("taggedunion", g.ty_text(ty, 2)),
+            _ => continue,
+        };
+        pre.push_str(&format!("    {kw} {name} {};\n", &body[kw.len()..]));
     }
     g.named = saved;
     g.pre = pre;
